@@ -40,7 +40,18 @@ Family == {
   \* underlying dict, as after move_to_end): children in ITS order
   << Cell("odict", << <<VStr("b"), VRef(2)>>, <<VStr("a"), VInt(5)>>, <<VStr("c"), VRef(3)>> >>),
      Cell("list", <<VInt(1), VRef(3)>>),
-     Cell("odict", << <<VStr("a"), VInt(7)>>, <<VStr("0"), VInt(8)>> >>) >> }
+     Cell("odict", << <<VStr("a"), VInt(7)>>, <<VStr("0"), VInt(8)>> >>) >>,
+  \* a list subclass whose iteration raises part-way (at the item "!"): what it produced before
+  \* the failure are its children, what lies behind is not reached (cell 4 only through cell 5)
+  << Cell("dict", << <<VStr("a"), VRef(2)>>, <<VStr("b"), VRef(3)>> >>),
+     Cell("badlist", <<VRef(3), VInt(1), VStr("!"), VRef(4)>>),
+     Cell("list", <<VInt(5), VRef(2), VRef(5)>>),
+     Cell("dict", << <<VStr("a"), VInt(9)>> >>),
+     Cell("badlist", <<VStr("!"), VRef(4)>>) >>,
+  \* ... as the root, and failing only after the last item / holding nothing but the failure
+  << Cell("badlist", <<VRef(2), VRef(3), VRef(2), VStr("!")>>),
+     Cell("dict", << <<VStr("a"), VRef(1)>>, <<VStr("b"), VInt(3)>> >>),
+     Cell("badlist", <<VStr("!")>>) >> }
 
 O(op, arg) == [op |-> op, arg |-> arg]
 StepSet == {O("x", VNone), O("X", VNone), O("P", VStr("a")), O("P", VStr("0")), O("P", VStr("b")),
